@@ -78,6 +78,10 @@ func (x *Exec) wrapResults(vals []Value, rty types.Type) Value {
 }
 
 func (x *Exec) freshResults(rty types.Type, hint string, n *node) []Value {
+	// the callee may have allocated: results may refer to objects that did not exist before the call
+	nn := x.VC.Fresh("next", IntS)
+	x.VC.Assume(n.guard, IntCmp(">=", nn, n.st.Next), "next-after-call")
+	n.st.Next = nn
 	var out []Value
 	if tup, ok := rty.(*types.Tuple); ok {
 		for i := 0; i < tup.Len(); i++ {
@@ -241,6 +245,7 @@ func (x *Exec) applyContract(n *node, fs *FuncSpec, callee *ssa.Function, name s
 	post := x.specEnvFor(fs, callee, args, st, n.guard)
 	post.old = pre
 	post.assume = true
+	post.freshBase = pre.Next
 	if sig != nil {
 		for i, nm := range resultNames(sig) {
 			if i < len(results) {
@@ -919,6 +924,13 @@ func (x *Exec) atCallAssertions(fc *funcCtx, n *node, ins ssa.Instruction, c *ss
 		g := env.EvalBool(cl.Expr)
 		x.reportSpecErrors(env, x.TopName, cl)
 		x.Oblige("atcall", fmt.Sprintf("%s#%d: %s", name, ord, clauseLabel(cl)), fmt.Sprint(ins.Pos()), ins.Pos(), n.guard, g, cl.Props)
+		if !fc.atcallReach[ins] {
+			// vacuity guard: the call site an assertion is attached to must be reachable under the contract
+			fc.atcallReach[ins] = true
+			if ro := x.Oblige("reach", fmt.Sprintf("call site %s#%d reachable", name, ord), fmt.Sprint(ins.Pos()), ins.Pos(), n.guard, True, cl.Props); ro != nil {
+				ro.MustSat = true
+			}
+		}
 		fc.atcallSeen[cl] = true
 	}
 	// ghost updates attached to this call site
